@@ -6,6 +6,7 @@ package listeners
 import (
 	"log/slog"
 	"net"
+	"net/http"
 )
 
 // SimTCP runs the real TCP listener code (Serve accept loop, Close) over a caller-supplied net.Listener.
@@ -24,5 +25,10 @@ func (l *SimTCP) Init(log *slog.Logger) error {
 	return nil
 }
 
-// SimWebsocket exposes the websocket upgrade handler so that it can be served over a simulated listener.
-func (l *Websocket) VerifInitNoListen(log *slog.Logger) { l.log = log }
+// VerifHandle runs the real websocket upgrade handler (and through it the real wsConn) for one request,
+// without an http.Server: the caller supplies a hijackable ResponseWriter over a simulated connection.
+func (l *Websocket) VerifHandle(establish EstablishFn, log *slog.Logger, w http.ResponseWriter, r *http.Request) {
+	l.establish = establish
+	l.log = log
+	l.handler(w, r)
+}
